@@ -194,6 +194,32 @@ def score(ctx, N):
     P = ctx.P
     cls = P.cls(KP)
     site = ctx.site(P.method(cls, "score"))
+    # ---------------- a vector target is one column: what _fit receives -------------------------------
+    for reg in ("default", "precomputed", "precomputedW"):
+        got1 = {}
+
+        def fit_stub1(interp, clo, args, kw, st_, node):
+            got1["args"] = args
+            h = st_.heap[clo.self_v.obj.id]
+            h["pkt_"] = pc.farr(T("sym", "pkt"), "N", "K")
+            h["pt__"] = pc.farr(T("sym", "ptt"), "K", "N")
+            return vconst(None)
+
+        I1 = ctx.interp(order=[("K", "<=", "N")], assume=protocols.assume_default, stubs={"KernelPCovR._get_kernel": kernel_stub, "KernelPCovR._fit": fit_stub1})
+        s1 = State()
+        ctor1 = {"mixing": scalar("alpha", 0, 1), "n_components": integer("K"), "svd_solver": "full", "kernel": "rbf", "gamma": scalar("gamma", 0, None), "tol": scalar("tol", 0, None)}
+        kw1 = {}
+        if reg.startswith("precomputed"):
+            ctor1["regressor"] = "precomputed"
+            if reg.endswith("W"):
+                kw1["W"] = arr("Wuser", "N")
+        o1 = ctx.construct(I1, s1, cls, **ctor1)
+        ctx.call_method(I1, s1, o1, "fit", arr("X", "N", "M"), arr("y", "N"), **kw1)
+        a1 = got1.get("args")
+        site1 = ctx.site(P.method(cls, "fit"))
+        if ctx.ob("R-REGRESSOR", f"[1-D y,{reg}] _fit receives (K, Yhat, W)", a1 is not None and len(a1) == 3, f"{a1!r}"[:160], site1, reg):
+            ctx.shape_is("R-REGRESSOR", f"[1-D y,{reg}] the regressed target reaches _fit as an (n, 1) matrix (W Yhat^T is an outer product)", a1[1], ("N", 1), site1, reg)
+            ctx.shape_is("R-REGRESSOR", f"[1-D y,{reg}] the regression weights reach _fit as an (n, 1) matrix", a1[2], ("N", 1), site1, reg)
     for center in (False, True):
         stubs = {"KernelPCovR._get_kernel": kernel_stub}
         if center:
